@@ -86,6 +86,7 @@ inductive Loaded where
 def readMetainfo (urlOk : Bytes → Bool) (b : Bytes) : Option (Option MetainfoM) :=   -- none = out of model
   match decodeTop 2048 b with
   | some (.dict d, _) =>
+    if !keysUtf8 d then some none else
     match d.lookup (str "info") with
     | some (.dict i) =>
       match readInfoC urlOk (encode (.dict i)), optStr d "announce", optStr d "comment", optStr d "created by",
